@@ -124,6 +124,7 @@ Definition law_of (p : list tree) : option (list (Z * Q)) :=
       let r := if (op =? 0) || (op =? 1) then Qmake 1 (Z.to_pos len) else q_of rn rd in
       Some [(code_of [1], r); (code_of [0], Qminus 1 r)]
     else None
+  | [A 13; A n; A _; A _; A ck; A cn; A cd]
   | [A 8; A n; A ck; A cn; A cd] =>
     let c := if ck =? 0 then default_close (Z.to_nat n) else q_of cn cd in
     Some (tally Z.eqb (dmap (fun o => match o with None => 0 | Some i => Z.of_nat i + 1 end)
